@@ -858,7 +858,10 @@ func genRefl(stream string, seed uint64, n int) []GenCase {
 		// a variable of the same name takes precedence - also after the object has been looked at in this run
 		shadow := []string{"x = F0; F0 = \"shadow\"; return [x, F0];", "x = F1; F0 = \"shadow\"; return [F0, x, F0];",
 			"if (F0 == F0) { F0 = 7; } return F0;", "y = [F0, F1, Missing]; F0 = 1; F1 = 2; Missing = 3; return [F0, F1, Missing, y];",
-			"F0 = F0; F0 = [F0, F0]; return F0;", "x = F1; return [HostV, F0, x, HostV];", "foreach v in [1, 2] { F0 = v; w = F1; } return [F0, w];"}
+			"F0 = F0; F0 = [F0, F0]; return F0;", "x = F1; return [HostV, F0, x, HostV];", "foreach v in [1, 2] { F0 = v; w = F1; } return [F0, w];",
+			// a variable whose value is null shadows the field like any other
+			"F0 = Missing; return [F0, type(F0), F1];", "function g() { local F0; return [F0, F1]; } return [g(), F0];",
+			"function g() { local F1; F1 = Missing; return F1; } x = g(); F0 = x; return [x, F0, F1];", "return [NullV, F0, HostV];"}
 		for _, s := range append(ss, shadow...) {
 			c := Case{ID: fmt.Sprintf("%s-%d", stream, id), Script: s, Opt: id%2 == 0, Tags: []string{"reflect"}}
 			if strings.Contains(s, "HostV") {
@@ -866,6 +869,12 @@ func genRefl(stream string, seed uint64, n int) []GenCase {
 				c.AddVar("HostV", VInt(10))
 				c.AddVar("F1", VStr("host variable F1"))
 				c.Tags = append(c.Tags, "shadow-host-variable")
+			}
+			if strings.Contains(s, "NullV") {
+				// a host variable holding null, named like a field
+				c.AddVar("NullV", VNull())
+				c.AddVar("F0", VNull())
+				c.Tags = append(c.Tags, "shadow-null-variable")
 			}
 			if inStrs(shadow, s) {
 				c.Tags = append(c.Tags, "shadow-after-lookup")
